@@ -973,7 +973,7 @@ nni_http_reason(nng_http_status code)
 		{ NNG_HTTP_STATUS_INTERNAL_SERVER_ERROR,
 		    "Internal Server Error" },
 		{ NNG_HTTP_STATUS_NOT_IMPLEMENTED, "Not Implemented" },
-		{ NNG_HTTP_STATUS_BAD_REQUEST, "Bad Gateway" },
+		{ NNG_HTTP_STATUS_BAD_GATEWAY, "Bad Gateway" },
 		{ NNG_HTTP_STATUS_SERVICE_UNAVAILABLE, "Service Unavailable" },
 		{ NNG_HTTP_STATUS_GATEWAY_TIMEOUT, "Gateway Timeout" },
 		{ NNG_HTTP_STATUS_HTTP_VERSION_NOT_SUPP,
